@@ -144,6 +144,18 @@ fn round64(mant: u64, exp: i32, nearest: bool) -> (u64, i32) {
     round_g::<f64>(mant, exp, nearest)
 }
 
+/// The five "shift into the high 64 bits" helpers of bigint.rs, callable on every target
+/// (which: 0 = u32x1, 1 = u32x2, 2 = u32x3, 3 = u64x1, 4 = u64x2; most significant word first).
+fn hi64_helper(which: u32, r0: u64, r1: u64, r2: u64) -> (u64, bool) {
+    match which {
+        0 => ml::bigint::u32_to_hi64_1(r0 as u32),
+        1 => ml::bigint::u32_to_hi64_2(r0 as u32, r1 as u32),
+        2 => ml::bigint::u32_to_hi64_3(r0 as u32, r1 as u32, r2 as u32),
+        3 => ml::bigint::u64_to_hi64_1(r0),
+        _ => ml::bigint::u64_to_hi64_2(r0, r1),
+    }
+}
+
 fn masks(which: u32, n: u64) -> u64 {
     match which {
         0 => ml::mask::lower_n_mask(n),
@@ -251,6 +263,9 @@ fn from_limbs(x: &[Limb]) -> Vec<u64> {
     x.chunks(2).map(|c| c[0] as u64 | (c.get(1).copied().unwrap_or(0) as u64) << 32).collect()
 }
 
+/// Native limbs per 64-bit limb of the harness model.
+const RATIO: usize = 64 / bigint::LIMB_BITS;
+
 fn vec_from(x: &[u64]) -> Option<VecType> {
     VecType::try_from(&to_limbs(x))
 }
@@ -265,7 +280,7 @@ fn big_apply(x: &[u64], op: &BigOp) -> BigOut {
     let r: Option<()> = match op {
         BigOp::SmallAdd(y) => bigint::small_add(&mut v, *y as Limb),
         BigOp::SmallMul(y) => bigint::small_mul(&mut v, *y as Limb),
-        BigOp::LargeAddFrom(y, start) => bigint::large_add_from(&mut v, &to_limbs(y), *start),
+        BigOp::LargeAddFrom(y, start) => bigint::large_add_from(&mut v, &to_limbs(y), *start * RATIO),
         BigOp::LongMul(y) => match bigint::long_mul(&to_limbs(x), &to_limbs(y)) {
             Some(z) => {
                 v = z;
@@ -284,7 +299,7 @@ fn big_apply(x: &[u64], op: &BigOp) -> BigOut {
             r
         }
         BigOp::ShlBits(n) => bigint::shl_bits(&mut v, *n),
-        BigOp::ShlLimbs(n) => bigint::shl_limbs(&mut v, *n),
+        BigOp::ShlLimbs(n) => bigint::shl_limbs(&mut v, n.saturating_mul(RATIO)),
         BigOp::Shl(n) => bigint::shl(&mut v, *n),
         BigOp::Normalize => {
             bigint::normalize(&mut v);
@@ -650,6 +665,7 @@ pub const CFG: Cfg = Cfg {
     round32,
     round64,
     masks,
+    hi64_helper,
     helpers32,
     helpers64,
     consts32,
